@@ -98,6 +98,15 @@ CHECKS = {
         note="Termination is an event budget, not a proof; surplus (clamped) exit events are not observable state and are not reported; interpreter recursion limit 1000.",
         design="§5 C08",
     ),
+    "C13": dict(
+        category="exploration",
+        technique="Hypothesis-constructed operation sets (multi-tag, tag spelling variants, overloaded multi-content, streaming, hostile parameter names) through generate_client; introspection oracle on the imported classes (method sets, inspect.signature incl. resolved annotations, coroutine/async-generator nature, typing.get_overloads, runtime_checkable isinstance, NotImplementedError from every mock method, MockAPIClient tag properties)",
+        text="~1 400 generated packages per quick run; for every tag client reachable from APIClient its Protocol and its mock are "
+             "compared member by member and every mock method is awaited/iterated once. Two root causes found and repaired (mocks "
+             "grouped by raw first tag; mocks resolved types against an empty schema table).",
+        note="Annotation equality is by repr of the resolved hint; Protocol stubs for streaming operations may be plain functions returning AsyncIterator; packages outside the C01/C03/C07-clean domain are not generated.",
+        design="§5 C13",
+    ),
     "C16": dict(
         category="exploration",
         technique="Hypothesis-built dataclass type trees (make_dataclass, random bijective Meta key maps) x conforming JSON; round-trip laws both directions, differential against a fresh copy of the module (history independence), corrupted-leaf error reporting, serialiser on generated instance graphs (chain/self-loop/ring/diamond/random; two annotation styles) against an independent reference",
